@@ -44,13 +44,16 @@ def parseSide (s : Sexp) : MSide :=
   { fields := atoms (s.field? "fields"), shootNew := s.hasFlag "new", ctor := atoms (s.field? "ctor"),
     getters := atoms (s.field? "get"), setters := atoms (s.field? "set") }
 
-/-- `(T "A" (src …) (dest …)|nodest)` -/
+/-- `(T "A" (src … [(tags (Field Tag)…)]) (dest …)|nodest)` -/
 def parseMType (s : Sexp) : Option MType :=
   match s with
   | .list (.atom "T" :: .atom n :: rest) =>
     let r := Sexp.list (.atom "r" :: rest)
     (r.field? "src").map (fun src =>
-      { name := n, src := parseSide src, dest := (r.field? "dest").map parseSide })
+      { name := n, src := parseSide src, dest := (r.field? "dest").map parseSide,
+        tags := ((src.field? "tags").map Sexp.args |>.getD []).filterMap (fun g => match g with
+          | .list [.atom f, .atom t] => some (f, t)
+          | _ => none) })
   | _ => none
 
 def parseSType (s : Sexp) : Option SType :=
